@@ -15,7 +15,7 @@ from ..monitors import Riders
 ID = "C02"
 LEVEL = "exploration"
 RULE = ("every rule firing (eager, normalize, lazy, sequential, moment_matching without Gaussians, compress_gaussians, unfold, optimize, and "
-        "per-class eager_subs steps) observed while running all engines E1-E14; per rule function the first 150 non-identity firings are "
+        "per-class eager_subs steps) observed while running all engines E1-E14; per (rule function, operators of its arguments) class the first 150 non-identity firings are "
         "always checked and 10% afterwards; each firing is decided on its whole integer input space (<=48 points) and 2 sample points per real "
         "input; firings outside the carrier of the semiring they rely on are skipped and counted. A case is one checked firing; non-trivial "
         "when the rewrite is not the identity and >=2 points were compared; distinct by (rule, lifted lhs hash)")
@@ -27,7 +27,7 @@ MIN_RULES = {"quick": 45, "thorough": 60}
 
 
 def plan(tier, seed):
-    per = {"E1": 260, "E1-routes": 120, "E2": 260, "E3": 200, "E4": 200, "einsum": 60, "E5-plated": 60, "E6-markov": 50, "E7-adjoint": 50,
+    per = {"E1": 260, "E1-lazy": 200, "E1-routes": 120, "E2": 260, "E3": 200, "E4": 200, "einsum": 60, "E5-plated": 60, "E6-markov": 50, "E7-adjoint": 50,
            "E8-gaussian": 120, "E9-marginals": 80, "E10-sampling": 60, "E14-compiler": 80, "E12-synth": 150}
     reps = 1 if tier == "quick" else 8
     shards = []
@@ -54,6 +54,24 @@ def registered_rules():
                     continue
                 out.setdefault(q, set()).add(name)
     return out
+
+
+def _arg_class(f):
+    """the sampling class of a firing: the operators of its arguments (a rule registered for a family of operators must be checked for
+    each member it fires on, not only the most frequent one)"""
+    out = []
+    for a in f.args:
+        if isinstance(a, str):
+            out.append(a)
+        elif hasattr(a, "red_op") and hasattr(a, "bin_op"):
+            out.append("C:%s:%s" % (a.red_op, a.bin_op))
+        elif hasattr(a, "op") and not isinstance(a, (int, float)):
+            out.append("%s:%s" % (type(a).__name__.split("[")[0], getattr(a, "op", "")))
+        elif type(a).__module__.startswith("funsor.ops"):
+            out.append(str(a))
+        else:
+            out.append(type(a).__name__.split("[")[0])
+    return tuple(out)
 
 
 def run_shard(shard, res):
@@ -97,8 +115,9 @@ def run_shard(shard, res):
                 res.observe("rules-returned-none", rule)
                 continue
             res.observe("rules-fired", rule)
-            seen_per_rule[rule] += 1
-            if seen_per_rule[rule] > 150 and rng.random() > 0.1:
+            cls_key = (rule, _arg_class(f))
+            seen_per_rule[cls_key] += 1
+            if seen_per_rule[cls_key] > 150 and rng.random() > 0.1:
                 res.count("firings:sampled-out")
                 continue
             if f.interp == "moment_matching" and _has_gaussian(f):
